@@ -3,9 +3,10 @@ CONSTANTS
   MAXORIG = 2
   ANSWER_ERRORS = FALSE
   GEN = TRUE
+  Kinds = {"req", "rep", "treq", "trep", "err", "uerr", "uinfo", "bad", "dgram"}
   VERIFY_CKSUM = TRUE
   UNK_ERR_IS_ERR = TRUE
   ROUTER_VERIFY_CKSUM = TRUE
-INVARIANTS NoErrorLoop NoReplyToMalformed EchoFaithful AtMostOneAnswer ChainBounded TotalBounded Emit
+INVARIANTS NoErrorLoop NoReplyToMalformed EchoFaithful AtMostOneAnswer RouterServeFaithful ChainBounded TotalBounded Emit
 PROPERTY Termination
 CHECK_DEADLOCK FALSE
